@@ -29,7 +29,10 @@ from checks.common import verdict
 from kkdrv import b2s, cb, copt, mk_key
 from vplib import clist
 
-G = ["%08x-aaaa-4bbb-8ccc-%012x" % (i, i) for i in range(1, 6)]
+# guids as a host may write them: lower case, upper / mixed case, braces, not a GUID at all
+# (any non-empty file name without '.' and '/' is in the model's domain)
+G = ["00000001-AAAA-4bbb-8CCC-000000000001", "00000002-aaaa-4bbb-8ccc-000000000002", "KEY-0003",
+     "{00000004-aaaa-4bbb-8ccc-000000000004}", "00000005-AAAA-4BBB-8CCC-00000000000F"]
 FS_CLASSES = ["openat", "write", "rename", "read", "statx"]
 NET_CLASSES = ["socket", "connect", "writev", "recvfrom", "shutdown"]
 
@@ -319,6 +322,35 @@ def order_run(scn, binary, root):
     return ev
 
 
+def slow_store_run(scn, binary, root):
+    """un-killed run with every write to a temp key file delayed by 3 ms (strace delay injection): the
+    sequential code is only slower; code that lets the attestation overtake the store is exposed to the
+    check made when the attestation arrives at the host"""
+    key_dir, log_dir = setup_dirs(scn, os.path.join(root, "slow"))
+    host = HonestHost(scn, key_dir)
+    m = mockhost.MockHost()
+    for cfg in scn["polls"]:
+        m.release(host.step(dict(cfg)))
+    k = len(scn["polls"])
+    wrapper = ["strace", "-f", "-o", "/dev/null", "-e", "trace=write", "-e", "inject=write:delay_exit=3000"]
+    for pth in scn["paths"]:
+        if pth.endswith(".tmp"):
+            wrapper += ["-P", os.path.join(key_dir, pth)]
+    drv = kkdrv.Driver(binary, wrapper=wrapper + scn.get("strace_extra", []))
+    dump = None
+    try:
+        drv.cmd({"cmd": "start", "base_url": m.base_url, "key_dir": key_dir, "log_dir": log_dir, "interval_ms": 10})
+        if not m.wait_status(k + 1, timeout=90):
+            raise RuntimeError("slow-store run of %s did not finish" % scn["name"])
+        dump = drv.cmd({"cmd": "dump"}, timeout=30)
+    finally:
+        drv.close()
+    m.quiesce()
+    obs = observe(scn, key_dir, host, m)
+    m.close()
+    return obs, dump, list(host.attest_checks)
+
+
 def prop_order(ev):
     """"the agent never attests a key it has not first stored and read back identically" on the observed call order"""
     for i, e in enumerate(ev):
@@ -558,11 +590,26 @@ def run(ctx):
         orders[si] = order_run(scns[si], binary, sroot)
 
     from concurrent.futures import ThreadPoolExecutor
+    slows = {}
+
+    def slow_job(si):
+        sroot = os.path.join(root, "s%dslow" % si)
+        os.makedirs(sroot, exist_ok=True)
+        slows[si] = slow_store_run(scns[si], binary, sroot)
+
     with ThreadPoolExecutor(max_workers=8) as ex:
         f1 = [ex.submit(count_job, a) for a in [(si, FS_CLASSES, "fs") for si in range(len(scns))] + [(si, NET_CLASSES, "net") for si in range(len(scns))]]
         f2 = [ex.submit(order_job, si) for si in range(len(scns))]
-        for f in f1 + f2:
+        f3 = [ex.submit(slow_job, si) for si in range(len(scns)) if not scns[si].get("skip_classes")]
+        for f in f1 + f2 + f3:
             f.result()
+    for si, (obs_s, dump_s, checks_s) in slows.items():
+        rec = {"obs": obs_s, "attest_checks": checks_s}
+        why = prop_check(scns[si], rec)
+        if why:
+            failures.append({"case": {"scenario": scns[si]["name"], "slow_store": "strace -e inject=write:delay_exit=3000 on the temp key file",
+                                      "_replay": "tools/vp check C08"},
+                             "why": why, "impl": {"files": {n: (None if c is None else len(c)) for n, c in obs_s["files"].items()}, "latched": obs_s["latched"]}})
     for si, s in enumerate(scns):
         ev = orders[si]
         # model order vs system-call order (opens / reads of a key file are folded into its look-up)
